@@ -575,11 +575,16 @@ pub enum Event {
     Comment(Tok),
 }
 
-#[derive(Default)]
 pub struct Rec {
     pub events: Vec<Event>,
-    /// if set, the action with this ordinal returns an error
-    pub fail_at: Option<usize>,
+    /// the action call with this ordinal returns an error (watchdog against reduce loops)
+    pub max_actions: usize,
+    pub budget_exceeded: bool,
+}
+impl Default for Rec {
+    fn default() -> Self {
+        Rec { events: vec![], max_actions: 20_000, budget_exceeded: false }
+    }
 }
 impl<'t> UserActionsTrait<'t> for Rec {
     fn call_semantic_action_for_production_number(
@@ -587,6 +592,10 @@ impl<'t> UserActionsTrait<'t> for Rec {
         prod_num: usize,
         children: &[ParseTreeType<'t>],
     ) -> parol_runtime::Result<()> {
+        if self.events.len() >= self.max_actions {
+            self.budget_exceeded = true;
+            return Err(ParolError::UserError(anyhow_like("verif: action budget exceeded")));
+        }
         self.events.push(Event::Action(
             prod_num,
             children
@@ -602,6 +611,10 @@ impl<'t> UserActionsTrait<'t> for Rec {
     fn on_comment(&mut self, token: Token<'t>) {
         self.events.push(Event::Comment(Tok::of(&token)));
     }
+}
+
+fn anyhow_like(m: &'static str) -> anyhow::Error {
+    anyhow::Error::msg(m)
 }
 
 #[derive(Clone, Debug, Default)]
@@ -621,6 +634,8 @@ pub struct Outcome {
     pub events: Vec<Event>,
     pub tree: Option<Node>,
     pub protocol_error: Option<String>,
+    /// the watchdog stopped the run after too many action calls (non-termination witness)
+    pub budget_exceeded: bool,
 }
 
 fn classify_err(e: &ParolError) -> (String, String, Option<usize>) {
@@ -713,6 +728,7 @@ impl Bound {
                     events,
                     tree: tb.root.take(),
                     protocol_error: pe,
+                    budget_exceeded: rec.budget_exceeded,
                 }
             }
             Err(e) => {
@@ -725,6 +741,7 @@ impl Bound {
                     events,
                     tree: None,
                     protocol_error: None,
+                    budget_exceeded: rec.budget_exceeded,
                 }
             }
         }
